@@ -164,11 +164,14 @@ def correspondence(ctx):
 
 
 # ------------------------------------------------------------------ search
-def lens_converged(det, sc, la, pol, opt, krho_max):
-    """Lens(Mie) with the quadrature refined until two successive refinements agree; returns (field, orders, last change)"""
-    nphi = int(max(60, 2.5 * krho_max * math.sin(la) + 40))
-    nth = 60
+def lens_converged(det, sc, la, pol, opt, krho_max, kz, x):
+    """Lens(Mie) with the quadrature refined until two successive refinements agree; returns (field, orders, last change).
+    The first orders are already above what the oscillation of the integrand needs (azimuth: k*rho*sin(angle); polar:
+    kz*(1-cos(angle)), the sphere's size parameter and k*rho*sin(angle)), so every later change is a refinement of a resolved quadrature."""
+    nphi = int(60 + 2.5 * krho_max * math.sin(la))
+    nth = int(50 + 0.7 * abs(kz) * (1 - math.cos(la)) + 1.5 * x + 0.7 * krho_max * math.sin(la))
     prev = None
+    ch = None
     for _ in range(4):
         f = calc_field(det, sc, illum_polarization=pol, theory=Lens(la, Mie(False, False), quad_npts_theta=nth, quad_npts_phi=nphi), **opt).transpose("point", "vector").values
         if prev is not None:
@@ -176,7 +179,7 @@ def lens_converged(det, sc, la, pol, opt, krho_max):
             if ch < 2e-8:
                 return f, (nth, nphi), ch
         prev = f
-        nth, nphi = int(nth * 1.7) + 1, int(nphi * 1.3) + 3      # deliberately unequal orders
+        nth, nphi = int(nth * 1.4) + 1, int(nphi * 1.25) + 3      # deliberately unequal orders
     return f, (nth, nphi), ch
 
 
@@ -223,9 +226,11 @@ def search(ctx):
             scale = max(1e-300, float(np.abs(fm).max()))
             if kcase == 0:
                 ctx.tried("mielens-vs-lens", (round(m, 4), round(x, 4), round(kz, 2), round(la, 3), round(pa, 3)))
-                fl_, orders, ch = lens_converged(det, sc, la, pol, opt, float(krho.max()))
-                if ch > 2e-8:
-                    ctx.notes.append("Lens quadrature did not stabilise to 2e-8 for one case (x=%.3g, kz=%.3g, angle=%.3g): skipped" % (x, kz, la))
+                fl_, orders, ch = lens_converged(det, sc, la, pol, opt, float(krho.max()), kz, x)
+                if ch > 1e-5:
+                    ctx.violation("C08:lens-refinement", "refining an already resolved Lens quadrature (to orders %r) still changes the field by %.3g of the peak" % (orders, ch), dict(orders=list(orders), **info))
+                elif ch > 2e-8:
+                    ctx.notes.append("Lens quadrature did not stabilise to 2e-8 for one case (x=%.3g, kz=%.3g, angle=%.3g, last change %.2g): skipped" % (x, kz, la, ch))
                 else:
                     dev = float(np.abs(fl_ - fm).max() / scale)
                     if dev > 5e-7:
@@ -249,7 +254,7 @@ def search(ctx):
                 ctx.tried("interpolation", (round(x, 4), round(kz, 2), i))
                 f_off = F(MieLens(lens_angle=la, calculator_accuracy_kwargs=dict(interpolate_integrals=False)))
                 for kw in (dict(interpolate_integrals=True), dict(interpolate_integrals='check'),
-                           dict(interpolate_integrals=True, interpolator_window_size=float(rng.uniform(10, 40)), interpolator_degree=int(rng.integers(28, 48)))):
+                           dict(interpolate_integrals=True, interpolator_window_size=float(rng.uniform(10, 30)), interpolator_degree=int(rng.integers(32, 48)))):   # at least as fine as the defaults (30, 32): coarser settings trade accuracy by design
                     f_on = F(MieLens(lens_angle=la, calculator_accuracy_kwargs=kw))
                     dev = float(np.abs(f_on - f_off).max() / scale)
                     if dev > 1e-9:
